@@ -136,4 +136,8 @@ example : serve [[.emit 1, .next, .emit 2, .next, .emit 3], [.emit 4], [.emit 5,
 
 example : leaves (onion 0 [[.next], [.next, .next], [.emit 1, .next], [.emit 2]]).1 = [3, 2, 1, 0] := by decide
 
+/-- the hypotheses of `C04_leave_reversed` are met by that chain -/
+example : (∀ h ∈ [[Act.next], [.next, .next], [.emit 1, .next], [.emit 2]], ∀ a ∈ h, a.isAbort = false) ∧
+    (∀ h ∈ [[Act.next], [.next, .next], [.emit 1, .next], [.emit 2]].dropLast, Act.next ∈ h) := by decide
+
 end Rux
